@@ -72,15 +72,21 @@ def call_history(lst, sel, short, limit):
 
 def trace_kinds(lst, i):
     """kinds of the tables of full result set i in file order, as next_table classifies them
-    (wrapped from outside during an ordinary read)"""
+    (wrapped from outside during an ordinary read).  read_tables_TOUGH2 looks for a table that was
+    absent at the first time through skip_to_table_TOUGH2, which calls next_table_TOUGH2 directly:
+    an instance attribute of that name catches those calls too."""
     seen = []
     orig = lst.next_table
 
     def wrapped(*a, **k):
         r = orig(*a, **k); seen.append(r); return r
+    inner = getattr(orig, '__name__', None)
     lst.next_table = wrapped
+    if inner and inner != 'next_table': setattr(lst, inner, wrapped)
     try: lst.index = i
-    finally: lst.next_table = orig
+    finally:
+        lst.next_table = orig
+        if inner and inner != 'next_table' and inner in lst.__dict__: delattr(lst, inner)
     out = ['element']
     for r in seen:
         if r is None: break
@@ -98,9 +104,16 @@ def reader_names(sim, kinds):
     return out
 
 
+def norm_key(name):
+    """a row name (str or tuple of str) as whitespace-normalised text"""
+    return ' '.join(' '.join(name if isinstance(name, tuple) else (name,)).split())
+
+
 def parse_short_sets(path, lst):
     """AUTOUGH2 short output, parsed without the reader: per position, per table letter, the rows
-    (INDEX-1, values) in printed order."""
+    (whitespace-normalised text of the name columns, values) in printed order.  The row is identified by
+    its NAME: the INDEX column is the simulator's own numbering (tests/listing/AUTOUGH2/7 is a cut-down
+    listing whose short tables carry indices far beyond the rows of its full table)."""
     data = open(path, 'rb').read()
     pos = list(lst._pos) + [len(data)]
     out = {}
@@ -126,9 +139,9 @@ def parse_short_sets(path, lst):
                 ncols = full.num_columns if full is not None else None
                 for l in body[hdr + 1:]:
                     if not l.strip(): continue
-                    toks = l.split()
-                    if ncols is None or len(toks) < ncols + 1: continue
-                    try: rows.append((int(toks[-ncols - 1]) - 1, [float(t) for t in toks[-ncols:]]))
+                    spans = list(re.finditer(r'\S+', l))
+                    if ncols is None or len(spans) < ncols + 1: continue
+                    try: rows.append((' '.join(l[:spans[-ncols - 1].start()].split()), [float(t.group(0)) for t in spans[-ncols:]]))
                     except ValueError: rows.append((None, None))
             tabs[c] = rows; order.append(c)
             k = kws[2] + 1
@@ -266,10 +279,11 @@ def run_file(pl):
     for c in calls:
         for it in c['sel']: cells.setdefault(cell_key(it), [])
     stepper = nav.open_listing(path)
-    V = []
+    V, fresh = [], []
     for i in range(n):
         stepper.index = i
         V.append({nm: getattr(stepper, nm)._data.copy() for nm in names})
+        fresh.append(nav.snap(stepper, names))       # (that the state at index i does not depend on the route is C07's business)
         for (tname, key, col), series in cells.items():
             val = None
             if tname in names:
@@ -279,10 +293,10 @@ def run_file(pl):
                 except (KeyError, IndexError): val = None
             series.append(val)
     stepper.close()
-    fresh = []
-    for i in range(n):
-        l = nav.open_listing(path); l.index = i
-        fresh.append(nav.snap(l, names)); l.close()
+    normcount = {}
+    for nm in names:
+        normcount[nm] = {}
+        for rn in tabs[nm].row_name: normcount[nm][norm_key(rn)] = normcount[nm].get(norm_key(rn), 0) + 1
     fulltimes, alltimes = [float(t) for t in lst.fulltimes], [float(t) for t in lst.times]
     den = nav.scale_for(fulltimes)
     t0 = time.time()
@@ -300,14 +314,14 @@ def run_file(pl):
             ci = colidx[tn][col] if tn in colidx and col in colidx[tn] else 0
             items += '%s:%s:%d;' % (spec, ('i%d' % key) if isinstance(key, int) else 'n' + keystr(key), ci)
         sel_str.append('%s!%s' % ('0' if c['short'] is False else '1', items))
-    model_out = [None] * len(calls)
+    model_out, model_flags = [None] * len(calls), [None] * len(calls)
     if pl.get('exe'):
         groups = {}
         for k, c in enumerate(calls): groups.setdefault(c['index'], []).append(k)
         lines = []
         for idx, ks in sorted(groups.items()):
             lines.append('\t'.join(['hist', {'AUTOUGH2': 'A', 'TOUGH+': 'P'}.get(sim, '2'), ''.join(s[0] for s in short_types),
-                                    ''.join(s + ';' for s in sets), ''.join(m + ';' for m in metas), state_str(fresh[idx]), '200'] + [sel_str[k] for k in ks]))
+                                    ''.join(s + ';' for s in sets), ''.join(m + ';' for m in metas), state_str(fresh[idx]), 'B'] + [sel_str[k] for k in ks]))
         p = subprocess.run([pl['exe']], input='\n'.join(lines) + '\n', stdout=subprocess.PIPE, stderr=subprocess.PIPE, text=True, timeout=600,
                            env=dict(os.environ, OCAMLRUNPARAM='l=8G'))
         if p.returncode != 0: raise RuntimeError('model driver failed: ' + p.stderr[-1000:])
@@ -315,7 +329,10 @@ def run_file(pl):
         for (idx, ks), o in zip(sorted(groups.items()), outs):
             parts = o.split('\t')
             if len(parts) != len(ks): raise RuntimeError('model driver returned %d results for %d selections' % (len(parts), len(ks)))
-            for k, pp in zip(ks, parts): model_out[k] = pp
+            for k, pp in zip(ks, parts):
+                flags, _, body = pp.partition('|')
+                if len(flags) != 4 or not body: raise RuntimeError('model driver: unexpected result %r' % pp[:80])
+                model_out[k], model_flags[k] = body, flags
 
     def same_float(a, b):
         return a == b or (a != a and b != b)
@@ -343,9 +360,11 @@ def run_file(pl):
     stats = {'ok': 0, 'timeout': 0, 'raise': 0, 'none': 0, 'items': 0, 'values': 0, 'rev': 0, 'int': 0, 'name': 0, 'tuple_form': 0, 'short_on': 0, 'short_off': 0,
              'multi_table': 0, 'skipping': 0}
     samples = []
+    hyp = {'selections': 0, 'wf_file': 0, 'wf_metas': 0, 'covers': 0, 'in_hang_class': 0, 'hang_class_and_timeout': 0}
+    l2 = None                  # one reader serves all calls of the file; it is re-opened after a call that did not return or raised
     for k, c in enumerate(calls):
-        l2 = nav.open_listing(path)
-        l2.index = c['index']
+        if l2 is None: l2 = nav.open_listing(path)
+        if l2.index != c['index']: l2.index = c['index']
         before = nav.snap(l2, names)
         sel = c['sel']
         arg = sel[0] if (c['form'] == 'tuple' and len(sel) == 1) else list(sel)
@@ -368,6 +387,18 @@ def run_file(pl):
         if c['tables'] and [t for t in names if nav.table_spec(t)][:len(c['tables'])] != c['tables']: stats['skipping'] += 1
         for it in sel: stats['int' if isinstance(it[1], int) else ('rev' if (isinstance(it[1], tuple) and spec_table(it[0]) in tabs and it[1] not in tabs[spec_table(it[0])].row_name) else 'name')] += 1
         want_short = has_short and (c['short'] is None or c['short'])
+        if model_flags[k] is not None:
+            fl = model_flags[k]
+            hyp['selections'] += 1
+            for name_, bit_ in zip(('wf_file', 'wf_metas', 'covers', 'in_hang_class'), fl): hyp[name_] += bit_ == '1'
+            if fl[3] == '1' and status == 'timeout': hyp['hang_class_and_timeout'] += 1
+            # the theorems' verdict for this selection, from their decidable hypotheses alone
+            if fl[:3] == '111' and (fl[3] == '1') != (status == 'timeout'):
+                disagree('file_hangs = %s (history_terminates_partial / history_hangs_on_class)' % fl[3], 'call %s' % ('did not return' if status == 'timeout' else 'returned'))
+        if status in ('timeout', 'raise'):
+            try: l2.close()
+            except Exception: pass
+            l2 = None
         if status == 'timeout':
             stats['timeout'] += 1
             key = hang_key(sim, c['tables']) or 'history:%s:no-return:%s' % (sim, '+'.join(c['tables']))
@@ -419,21 +450,24 @@ def run_file(pl):
                         if len(vv): fail('history:invalid-item-has-values', 'item %r returned %d values' % (it, len(vv)), 'no values for a row that is not in the table')
                         continue
                     tab = tabs[tname]
-                    ridx = None
+                    rkey = None          # the row's name as text, when short output is to be included for this table
                     if want_short and (tname[0].upper() + 'SHORT') in short_types:
-                        if isinstance(key, int): ridx = key
+                        if isinstance(key, int): rkey = norm_key(tab.row_name[key]) if -len(tab.row_name) <= key < len(tab.row_name) else None
                         else:
                             kk = key if key in tab.row_name else (key[::-1] if isinstance(key, tuple) and key[::-1] in tab.row_name else None)
-                            ridx = (len(tab.row_name) - 1 - tab.row_name[::-1].index(kk)) if kk is not None else None
+                            rkey = norm_key(kk) if kk is not None else None
+                        if rkey is not None and normcount[tname].get(rkey, 0) != 1:       # cannot tell the row from its printed name: no verdict
+                            stats['short_name_ambiguous'] = stats.get('short_name_ambiguous', 0) + 1
+                            continue
                     sgn = -1.0 if (not isinstance(key, int) and key not in tab.row_name) else 1.0
                     exp, exp_t, fi2 = [], [], 0
                     for p in range(npos):
                         if shorts[p]:
-                            if not want_short or ridx is None: continue
+                            if not want_short or rkey is None: continue
                             order, tabs_p = short_parsed.get(p, ([], {}))
                             rows = dict((a, b) for a, b in tabs_p.get(tname[0].upper(), []) if a is not None)
-                            if ridx in rows:
-                                exp.append(sgn * rows[ridx][colidx[tname][col]]); exp_t.append(alltimes[p])
+                            if rkey in rows:
+                                exp.append(sgn * rows[rkey][colidx[tname][col]]); exp_t.append(alltimes[p])
                         else:
                             exp.append(cells[(tname, key, col)][fi2]); exp_t.append(fulltimes[fi2]); fi2 += 1
                     if len(vv) != len(exp) or not all(b is not None and same_float(a, b) for a, b in zip(vv, exp)):
@@ -448,19 +482,23 @@ def run_file(pl):
             if not (after[0] == before[0] and same_float(after[1], before[1]) and after[2] == before[2] and after[3] == before[3]):
                 what = 'index' if after[0] != before[0] else 'time' if not same_float(after[1], before[1]) else 'step' if after[2] != before[2] else 'tables'
                 fail('history:state-changed:' + what, '%s changed by history(): %r -> %r' % (what, before[:3], after[:3]), 'same current index, time, step and tables as before the call')
-            i0 = int(before[0])
-            if i0 < n - 1: mv, j = l2.next(), i0 + 1
-            elif i0 > 0: mv, j = l2.prev(), i0 - 1
-            else: mv, j = l2.next(), i0
-            s2 = nav.snap(l2, names)
-            if not ((mv == (j != i0)) and int(s2[0]) == j and same_float(s2[1], fresh[j][1]) and s2[2] == fresh[j][2] and s2[3] == fresh[j][3]):
-                fail('history:next-prev-after', 'after history() at index %d, next/prev returned %r and shows index %r' % (i0, mv, s2[0]), 'the neighbouring result set, as from the restored state')
+            if k < 12 or k % 4 == 0 or pl['thorough']:
+                stats['next_prev_after'] = stats.get('next_prev_after', 0) + 1
+                i0 = int(before[0])
+                if i0 < n - 1: mv, j = l2.next(), i0 + 1
+                elif i0 > 0: mv, j = l2.prev(), i0 - 1
+                else: mv, j = l2.next(), i0
+                s2 = nav.snap(l2, names)
+                if not ((mv == (j != i0)) and int(s2[0]) == j and same_float(s2[1], fresh[j][1]) and s2[2] == fresh[j][2] and s2[3] == fresh[j][3]):
+                    fail('history:next-prev-after', 'after history() at index %d, next/prev returned %r and shows index %r' % (i0, mv, s2[0]), 'the neighbouring result set, as from the restored state')
             if len(samples) < 2 and got is not None:
                 samples.append({'file': pl['label'], 'selection': nav.sel_to_json(sel), 'index': c['index'], 'first_values': [float(x) for x in got[0][1][:3]]})
-        try: l2.close()
-        except Exception: pass
+    try:
+        if l2 is not None: l2.close()
+    except Exception: pass
     lst.close()
     res['stats'] = stats
+    res['hyp'] = hyp
     res['ncalls'] = len(calls)
     res['samples'] = samples
     res['subsets'] = sorted(set('+'.join(c['tables']) for c in calls))
@@ -496,6 +534,7 @@ def collect(ctx, results, timeout):
     tot = {}
     ncalls = 0
     sims = {}
+    hyp = {}
     for j, r, err in results:
         if err == 'timeout':
             ctx.failure('history-terminates', 'history:worker-timeout', j['inp'], 'the history calls on %s did not finish within %d s although each runs under its own limit' % (j['label'], timeout), 'every call returns')
@@ -506,6 +545,9 @@ def collect(ctx, results, timeout):
         ncalls += r['ncalls']
         sims.setdefault(r['sim'], [0, 0]); sims[r['sim']][0] += 1; sims[r['sim']][1] += r['ncalls']
         for k, v in r['stats'].items(): tot[k] = tot.get(k, 0) + v
+        for k, v in r.get('hyp', {}).items(): hyp[k] = hyp.get(k, 0) + v
+        if r.get('hyp', {}).get('selections') and r['hyp']['wf_file'] != r['hyp']['selections']:
+            ctx.log('NOTE: the abstraction of %s is not well-formed in the sense of wf_file (set shapes %s): the positive theorems say nothing about it' % (j['label'], r['sets']))
         for f in r['failures']:
             name = 'history-terminates' if 'did not return' in f['observed'] else ('history-restores-state' if 'state-changed' in f['key'] or 'next-prev' in f['key'] else 'history-eq-stepping')
             ctx.failure(name, f['key'], f['input'], f['observed'], f['required'])
@@ -522,6 +564,13 @@ def collect(ctx, results, timeout):
     ctx.oracle_cases('history-terminates', ncalls, timeouts=tot.get('timeout', 0))
     ctx.oracle_cases('history-restores-state', tot.get('ok', 0))
     ctx.extra['input_distribution'] = dict(tot, by_simulator={k: {'files': v[0], 'calls': v[1]} for k, v in sims.items()})
+    if hyp.get('selections'):
+        # hypotheses of history_eq_stepping / history_terminates_partial / history_hangs_on_class, evaluated by the extracted model
+        # on the abstraction of every shipped file and every generated selection
+        ctx.hyp_met.update({'wf_file': '%d of %d selections (all files)' % (hyp['wf_file'], hyp['selections']),
+                            'wf_metas': '%d of %d' % (hyp['wf_metas'], hyp['selections']),
+                            'covers': '%d of %d' % (hyp['covers'], hyp['selections']),
+                            'file_hangs': '%d selections in the class; the real call did not return on %d of them' % (hyp['in_hang_class'], hyp['hang_class_and_timeout'])})
 
 
 def run(ctx):
